@@ -140,7 +140,7 @@ pub fn osc(data: &[u8]) -> c17::OscCase {
 /// C18 — sinc interpolation
 pub fn sinc(data: &[u8]) -> c18::Case {
     let mut u = Unstructured::new(data);
-    let ft = c18::FTS[idx(&mut u, 6)];
+    let ft = c18::FTS[idx(&mut u, c18::FTS.len())];
     let depth = 1 + idx(&mut u, 16);
     let array_storage = flag(&mut u);
     let mode = [c18::Mode::Transparent, c18::Mode::Linearity, c18::Mode::Constant, c18::Mode::Reset, c18::Mode::RandomRatio][idx(&mut u, 5)];
